@@ -80,8 +80,8 @@ func (r *faultReader) Seek(off int64, whence int) (int64, error) {
 // faultWriter accepts K bytes in total then fails. Shape 0: the crossing Write accepts what fits and
 // returns the error; shape 1: the crossing Write rejects everything.
 type faultWriter struct {
-	K     int
-	Shape int
+	K       int
+	Shape   int
 	n       int
 	tripped bool
 	buf     bytes.Buffer
